@@ -298,10 +298,13 @@ class Compiler:
             "set_where": None
         }
 
-        code = self.compile_file(file, link_base["promise"], link_base)
-
-        if not link_base["promise"].settled:
-            link_base["promise"].settle(addr)
+        try:
+            code = self.compile_file(file, link_base["promise"], link_base)
+        finally:
+            # Also when a statement of the included file was refused: labels
+            # defined before it are based on this promise
+            if not link_base["promise"].settled:
+                link_base["promise"].settle(addr)
 
         return code
 
